@@ -22,7 +22,7 @@ MASK_FOR = {'broken_ref': ['DaeBrokenRefError'], 'missing_p': ['DaeIncompleteErr
             'truncated': ['DaeMalformedError'], 'unknown_semantic': ['DaeUnsupportedError'], 'bad_index': ['DaeMalformedError'],
             'no_accessor': ['DaeIncompleteError'], 'bad_material_ref': ['DaeBrokenRefError'],
             'degenerate_lookat': ['DaeMalformedError'], 'zero_rotate_axis': ['DaeMalformedError']}
-EDITS = ['rename_geometry', 'add_node', 'add_geometry', 'add_primitive', 'add_primitive', 'add_primitive', 'add_primitive', 'effect_color', 'add_effect', 'ignore', 'remove_geometry',
+EDITS = ['rename_geometry', 'add_node', 'add_geometry', 'add_primitive_semantic', 'add_primitive_semantic', 'add_primitive', 'add_primitive', 'add_primitive', 'add_primitive', 'effect_color', 'add_effect', 'ignore', 'remove_geometry',
          'asset', 'scale_vertices', 'scale_vertices', 'query', 'query', 'query']
 
 
@@ -50,7 +50,8 @@ def make_xml(rng, ns, damage, direct_texture=None, image_name=None):
                 '<param name="Y" type="float"/><param name="Z" type="float"/></accessor></technique_common>' % (sid, nv))
     if damage == 'no_accessor':
         accessor = ''
-    extra_input = '<input semantic="WEIRD" source="#%s" offset="0"/>' % sid if damage == 'unknown_semantic' else ''
+    extra_input = ('<input semantic="%s" source="#%s" offset="0"/>' % (rng.choice(['WEIRD', 'WEIGHT', 'JOINT']), sid)
+                   if damage == 'unknown_semantic' else '')
     p = '' if damage == 'missing_p' else '<p>%s</p>' % idx
     use_poly = rng.random() < 0.5 and damage not in ('missing_p',)
     if use_poly:
@@ -179,7 +180,8 @@ def gen_small_prog(rng, idx):
     damage = rng.choice(['unknown_semantic', 'unknown_semantic', 'unknown_semantic', 'broken_ref', 'bad_material_ref', 'none'])
     src = {'kind': 'xml', 'xml': make_xml(rng, ns, damage, direct_texture=False), 'ns': ns, 'damage': damage}
     mask = rng.choice([None, None, ['DaeUnsupportedError'], ['DaeError'], ['DaeBrokenRefError']])
-    return {'name': 'p%d' % idx, 'source': src, 'ignore': mask, 'steps': [['load'], ['snap']]}
+    return {'name': 'p%d' % idx, 'source': src, 'ignore': mask,
+            'steps': [['load'], rng.choice([['snap'], ['edit', 'query', 0], ['edit', 'add_primitive_semantic', rng.randint(0, 3)]])]}
 
 
 def gen_archive_prog(rng, idx):
@@ -472,7 +474,8 @@ def run(ctx):
     shapes = [[['load'], ['save'], ['edit', 'query', 0], ['save']],
               [['load'], ['edit', 'add_node', 1], ['edit', 'add_primitive', 1], ['save'], ['edit', 'add_geometry', 2],
                ['edit', 'scale_vertices', 1], ['save']],
-              [['load'], ['edit', 'ignore', 1], ['edit', 'query', 0], ['edit', 'add_effect', 3], ['save']]]
+              [['load'], ['edit', 'ignore', 1], ['edit', 'query', 0], ['edit', 'add_primitive_semantic', 0],
+               ['edit', 'add_effect', 3], ['save']]]
     groups = []
     for shape in shapes[:(3 if nprog >= 60 else 1)]:
         grp = []
